@@ -10,6 +10,8 @@ from xv.core import Harness, run
 from xv.env import mstore
 from xv.harness import _store
 
+PRECHECK = "xv.validate_env"  # thorough tier: model vs real normpath / file system / lock file / stores
+
 EXPLANATION = (
     "C01: one-step induction over store states: import_one / delete_one / iter_with_etag / get_file of the real "
     "BareGitStore, TreeGitStore and VdirStore run on the model file system + dulwich surface; outcome class and "
